@@ -22,10 +22,18 @@ func djump(pc ProgramCounter, a uint32, jumpTable JumpTable, bitmask Bitmask) (E
 		return ExitPanic, pc
 	}
 	index := a/ZA - 1 // GP,  if  ZA > 1, index = ZA*index
-	dest, _, err := ReadUintFixed(jumpTable.Data[index*jumpTable.Length:], int(jumpTable.Length))
-	if err != nil {
-		// memory corruption?
-		panic(err.Error())
+	// entries are z-octet little-endian naturals; z is a full octet, so an entry
+	// may be wider than 8 octets and its value larger than any program counter
+	var dest uint64
+	for i, b := range jumpTable.Data[index*jumpTable.Length : (index+1)*jumpTable.Length] {
+		if i < 8 {
+			dest |= uint64(b) << (8 * i)
+		} else if b != 0 {
+			return ExitPanic, pc
+		}
+	}
+	if dest > 0xffffffff {
+		return ExitPanic, pc
 	}
 
 	newPC := ProgramCounter(dest)
